@@ -12,6 +12,8 @@
 (*   R  step = session_state["step"]   read the clock  (top of run_step)   *)
 (*   W  session_state["step"] = ...    log result, advance the clock       *)
 (*   U  instance.unlock()              release                             *)
+(*   D  Response.close()               the WSGI server closes a streamed   *)
+(*                                     response after its last chunk       *)
 (* Request kinds: "step" (run-step), "steps" (run-steps, N steps),         *)
 (* "stream" (stream-steps: until the stop time; the client may go away     *)
 (* after Abort[r] results), "err" (any of the three with a body the        *)
@@ -97,10 +99,17 @@ Unlock(r) == /\ pc[r] = "unlock"
                 THEN UNCHANGED lock                      \* deviation: only the except branch unlocks
                 ELSE lock' = FALSE
              /\ holds' = [holds EXCEPT ![r] = FALSE]
-             /\ pc' = [pc EXCEPT ![r] = "done"]
+             /\ pc' = [pc EXCEPT ![r] = IF Kind[r] = "stream" /\ ~Aborted(r) THEN "close" ELSE "done"]
              /\ UNCHANGED <<clock, log, loc, got, left>> /\ Did(r)
+\* a stream that ran to its end: the response is closed by the server some time after the generator has ended (and released
+\* the lock) - other requests may have been accepted in between.  Closing releases nothing: the lock is not this request's
+\* any more.  Deviation D14c: an on-close callback unlocks once more, whoever holds the lock by then.
+Close(r) == /\ pc[r] = "close"
+            /\ lock' = IF "D14c_close_unlocks" \in Dev THEN FALSE ELSE lock
+            /\ pc' = [pc EXCEPT ![r] = "done"]
+            /\ UNCHANGED <<clock, log, loc, got, left, holds>> /\ Did(r)
 
-Step(r) == TryLock(r) \/ SaveReq(r) \/ Early(r) \/ Check(r) \/ Take(r) \/ Read(r) \/ Write(r) \/ Unlock(r)
+Step(r) == TryLock(r) \/ SaveReq(r) \/ Early(r) \/ Check(r) \/ Take(r) \/ Read(r) \/ Write(r) \/ Unlock(r) \/ Close(r)
 Next == \E r \in Reqs : Step(r)
 Spec == Init /\ [][Next]_vars
 
